@@ -239,7 +239,7 @@ HISTORY_R9 = {
     "C09-r9m2": "missed at first -> populations of hand-written programs under steps that evaluate and select",
     "C10-r9m2": "missed at first -> a whole SimpleGP search on a weighted grammar whose start symbol has an unreachable sibling",
     "C11-r9m1": "missed at first -> the type index of the root judged by object IDENTITY (strangers listed, own nodes missing)",
-    "C12-r9m1": "NOT detected: AdaptiveGeneticProgramming drops an evaluated tail when it shrinks the population (3 of ~160 seeded runs in the author's demo); `check_adaptive_gp` was added and passes on the unchanged tree, but does not provoke the event within the quick or thorough budget",
+    "C12-r9m1": "not detected until round 10 (the event needs a new best inside an evaluated tail that a shrinking population drops: 3 of ~160 seeded runs) -> check_adaptive_gp compares the tracker's best with the evaluation log at EVERY budget check, on landscapes where records keep coming, and when an evaluated program never reached the tracker it replays the same run with that program made the best of all",
     "C12-r9m2": "missed at first -> a user aggregate judged by the declaration (the first component), exactly 0 included",
     "C13-r9m1": "missed at first -> the problems the SimpleGP wrapper builds for every form of `minimize`",
     "C14-r9m1": "missed at first -> SimpleGP with a target that is never reached: the evaluation budget ends the search",
@@ -252,6 +252,40 @@ HISTORY_R9 = {
     "C18-r9m2": "missed at first -> sources created without a seed argument",
     "C19-r9m2": "missed at first -> two different abstract types with the SAME class name in one grammar",
     "C20-r9m2": "missed at first -> an explicitly empty `fields` dictionary",
+}
+
+
+HISTORY_R10 = {
+    "C01-r10m1": "missed at first -> a Dependent with several dependencies of different types, named in another order than the fields are declared (ctxgrammar.units_grammar)",
+    "C01-r10m2": "missed at first -> an abstract class that declares a constructor and has no production in the grammar (gram.build now gives abstract classes their fields)",
+    "C02-r10m1": "missed at first -> the refinement's OWN operators: StringSizeBetween.mutate / crossover for every bound pair (equal bounds included), every current string, every draw",
+    "C02-r10m2": "missed at first -> every draw at and around every boundary of the accumulated weights of a WeightedStringHandler row, rows whose first letters have probability 0",
+    "C03-r10m2": "missed at first -> Unions of a wrapped grammar type (list / bounded list / tuple of a symbol) and a plain value in the depth corpus",
+    "C04-r10m2": "first detected only as a broken correspondence (no failing input)",
+    "C05-r10m1": "missed at first -> a production with a builtin as second base (class Ident(Node, str)) in dcgrammar",
+    "C05-r10m2": "missed at first -> a field-less node class derived from a builtin value type (class Tok(str)) in dcgrammar",
+    "C06-r10m1": "first detected only as a broken correspondence (no failing input)",
+    "C07-r10m1": "the check did not return at first (the failure allowance doubled with every failed mapping) -> tight stack budgets (three interleaved rounds over genomes most of which do not map) run first, and every check runs under a wall-clock allowance",
+    "C08-r10m1": "missed at first -> named (str) seeds in the cross-process battery",
+    "C08-r10m2": "missed at first -> a grammar from the library's own seeded generator (synthetic_grammar.create_arbitrary_grammar) in the cross-process battery",
+    "C09-r10m1": "missed at first -> parents whose genome was made with another gene_length (GE / SGE / stack) come out of mutation and crossover as they went in",
+    "C09-r10m2": "missed at first -> the public ranking helpers (problems.helpers.sort_population / best_individual / is_better) leave the list they are given in order",
+    "C10-r10m1": "missed at first -> the parameters of the refinement objects are part of the grammar snapshot; a production whose refinement admits no value (IntRange(5, 2))",
+    "C10-r10m2": "missed at first -> the declaration list of the geml regressors (geml.grammars.symbolic_regression.components) before and after a fit",
+    "C11-r10m1": "missed at first -> productions that INHERIT their constructor from an abstract dataclass (dcgrammar.InputVar)",
+    "C12-r10m1": "missed at first -> fitness functions that return their components as a tuple, a numpy array or a one-shot generator",
+    "C12-r10m2": "missed at first -> a budget that is already spent when the search starts (the same object searched twice, a search after a warm start)",
+    "C13-r10m1": "missed at first -> component shapes (generator, tuple, array) in the aggregate check",
+    "C13-r10m2": "missed at first -> a fitness function reading module-level data that is replaced between batches of different sizes, parallel vs sequential, in a fresh interpreter",
+    "C14-r10m1": "missed at first -> a ParallelStep that is not the outermost step (its input is a one-shot stream)",
+    "C14-r10m2": "missed at first -> an ExclusiveParallelStep one of whose shares rounds to nothing",
+    "C15-r10m2": "missed at first -> a Population object read before (counted, looped over, handed to a step) and handed to a step again",
+    "C16-r10m1": "first detected only as a broken correspondence (no failing input)",
+    "C17-r10m1": "missed at first -> twins: distinct individuals with equal genotypes under lexicase selection",
+    "C17-r10m2": "missed at first -> pools of 33 to 80 individuals through the lexicase model",
+    "C18-r10m1": "missed at first -> ranges wider than the platform integer with genes outside [0, sys.maxsize]",
+    "C19-r10m2": "missed at first -> the extracted grammar's rules still list their productions (weights sum to one) AFTER programs were built from it",
+    "C20-r10m2": "missed at first -> a NaN first fitness: no later row is an improvement",
 }
 
 
@@ -270,6 +304,7 @@ def main():
     hist.update(HISTORY_R7)
     hist.update(HISTORY_R8)
     hist.update(HISTORY_R9)
+    hist.update(HISTORY_R10)
     rows, caught = [], 0
     dirs = sorted(p for p in (VERIF / "seeded").iterdir() if p.is_dir())
     for d in dirs:
@@ -294,8 +329,8 @@ against scratch copies (`VERIF_REPO`).  All {n} changes keep the repository's fa
 Round 1: {r1} changes (`Cxx-mK`); round 2: {rn(2)} changes (`Cxx-r2mK`), whose authors were asked to look beyond the obvious function;
 round 3: {rn(3)} changes (`Cxx-r3mK`), whose authors were told that a randomised differential test on small inputs exists and asked for
 rarely used library features, narrow triggers and state carried between calls; round 4: {rn(4)} changes (`Cxx-r4mK`), same brief plus the list of
-everything tried before for that property ("find something genuinely different"); rounds 5 to 9: {rn(5)}, {rn(6)}, {rn(7)}, {rn(8)} and {rn(9)} changes
-(`Cxx-r5mK` ... `Cxx-r9mK`), same brief, each with the ideas of all earlier rounds listed as already tried.
+everything tried before for that property ("find something genuinely different"); rounds 5 to 10: {rn(5)}, {rn(6)}, {rn(7)}, {rn(8)}, {rn(9)} and {rn(10)} changes
+(`Cxx-r5mK` ... `Cxx-r10mK`), same brief, each with the ideas of all earlier rounds listed as already tried.
 
 **{caught} of {n} are detected by the quick check of the property they break** (the `history` column says which were missed on their first evaluation and what was strengthened).
 
